@@ -36,6 +36,7 @@ Definition safe_names : list str :=
     "math.floor"; "math.fmod"; "math.log"; "math.max"; "math.min"; "math.modf"; "math.rad";
     "math.random"; "math.randomseed"; "math.sin"; "math.sqrt"; "math.tan"; "math.tointeger";
     "math.type"; "math.ult";
+    "math.cosh"; "math.sinh"; "math.tanh"; "math.frexp"; "math.ldexp"; "math.log10"; "math.pow";
     "string.byte"; "string.char"; "string.dump"; "string.find"; "string.format"; "string.gmatch";
     "string.gsub"; "string.len"; "string.lower"; "string.match"; "string.pack"; "string.packsize";
     "string.rep"; "string.reverse"; "string.sub"; "string.unpack"; "string.upper";
@@ -89,6 +90,7 @@ Definition is_func (n : lnode) : bool := (ln_kind n =? LK_CFUNC) || (ln_kind n =
    root of the per-type metatables) *)
 Definition node_ids (g : lgraph) : list N := 0 :: map ln_id (lg_nodes g).
 Definition closed (g : lgraph) : bool :=
+  existsb (N.eqb 1) (node_ids g) &&
   forallb (fun e => existsb (N.eqb (le_from e)) (node_ids g) && existsb (N.eqb (le_to e)) (node_ids g)) (lg_edges g).
 
 (* authorities reachable in a graph; None if some reachable builtin is unknown *)
